@@ -152,7 +152,10 @@ def execute(case, ctx):
         except Exception as exc2:
             raise Violation('C12.not_editable', f'after {ap.desc} raised {exc!r} deleting the appended pass raised {exc2!r}', sig) from None
 
-        c01.check_invariant(root, ap, 'C12.c01_after_failed_edit')
+        if root.src.rstrip(' \t\n').endswith('\\'):
+            ctx.count('source_ends_with_continuation(C01-dangling-continuation-eof family, not re-reported)')
+        else:
+            c01.check_invariant(root, ap, 'C12.c01_after_failed_edit')
 
         fn = site.split(':')[-1]
 
